@@ -364,7 +364,7 @@ def oracle(case, o):
                 bad.append(("C16:feature-dropped", f"declared spot feature {name} present on {len(have)} spots is not stored", name))
             continue
         want_dt = "int" if isint else "float"
-        if have and not p["dtype"].startswith(want_dt):
+        if have and not (p["dtype"].startswith(want_dt) or (isint and p["dtype"].startswith("uint"))):
             bad.append(("C16:feature-dtype", f"spot feature {name} (isint={isint}) stored as {p['dtype']}", want_dt))
         for n in keep:
             cell = p["cells"][pos[n]]
@@ -388,7 +388,7 @@ def oracle(case, o):
                 bad.append(("C16:feature-dropped", f"declared edge feature {name} present on {len(have)} edges is not stored", name))
             continue
         want_dt = "int" if isint else "float"
-        if have and not p["dtype"].startswith(want_dt):
+        if have and not (p["dtype"].startswith(want_dt) or (isint and p["dtype"].startswith("uint"))):
             bad.append(("C16:feature-dtype", f"edge feature {name} (isint={isint}) stored as {p['dtype']}", want_dt))
         for a, b, e, _ in edges:
             cell = p["cells"][epos[(a, b)]]
@@ -455,7 +455,16 @@ def oracle(case, o):
 
 # ----------------------------------------------------------------- generators
 FLOAT_TEXTS = ["0.0", "1.5", "-2.25", "63.76923076923077", "1e-05", "3", "NaN", "Infinity", "-Infinity", "1.0E10", "0.1"]
-INT_TEXTS = ["0", "1", "-1", "7", "42", "-300", "65536", "2147483647", "-2147483648"]
+INT_TEXTS = ["0", "1", "-1", "7", "42", "-300", "65536", "2147483647", "-2147483648", "+7", "007", "-0012", "+0", "-0",
+             str(2 ** 53 - 1), str(2 ** 53), str(2 ** 53 + 1), str(-(2 ** 53) - 1), str(2 ** 62), str(2 ** 62 + 1), str(2 ** 63 - 1),
+             str(-(2 ** 63)), "+" + str(2 ** 53 + 1), "00" + str(2 ** 62 + 3), "9007199254740993", "-9007199254740995",
+             "1152921504606846977"]
+# integers that a column of non-negative values may also hold (numpy then infers uint64)
+UINT_TEXTS = [str(2 ** 63), str(2 ** 63 + 1), str(2 ** 64 - 1), str(2 ** 64 - 2), "0", "5", str(2 ** 53 + 1), "+" + str(2 ** 63 + 3)]
+# spot ids: small, around 2^53 (where a pass through float64 rounds), up to the uint64 range the geff id array holds
+BIG_IDS = [0, 1, 5, 77, 2 ** 20, 2 ** 31 - 1, 2 ** 40, 123456789, 2 ** 53 - 1, 2 ** 53, 2 ** 53 + 1, 2 ** 53 + 2, 2 ** 53 + 3,
+           2 ** 62, 2 ** 62 + 1, 2 ** 63 - 2, 2 ** 63 - 1, 2 ** 63, 2 ** 63 + 1, 2 ** 64 - 2, 2 ** 64 - 1, 9007199254740995,
+           1152921504606846977]
 # doubles whose textual renderings differ a lot: tiny, huge, negative, zero, integral, many digits
 DOUBLES = [0.0, -0.0, 1.0, 7.0, -3.0, 0.5, -2.25, 63.76923076923077, 0.1, 1e-7, -1e-7, 2.5e-5, -3.0e-4, 1.2345e-9,
            1e12, -4.5e12, 1.0e10, 123456789.125, 9.999999e6, 1.0e7, 0.001, 0.00099, 3.141592653589793, -0.30000000000000004,
@@ -586,12 +595,18 @@ def exhaustive(nmax):
         for k in range(2 ** len(pairs)):
             es = [p for i, p in enumerate(pairs) if k >> i & 1]
             comps = components(n, es)
-            spots = [base_spot(i, 10 + i, i) for i in range(n)]
+            # spot ids: small, or (every fourth link set) around 2^53 / 2^62 / 2^64 where a pass through float64 rounds
+            idl = [10 + i for i in range(n)] if k % 4 != 2 else [2 ** 53 + 1, 2 ** 53 + 3, 2 ** 62 + 1, 2 ** 64 - 1][:n]
+            spots = [base_spot(i, idl[i], i) for i in range(n)]
+            for i, sp in enumerate(spots):
+                if (i + k) % 2 == 0:
+                    sp["f"]["COUNT"] = INT_TEXTS[(7 * i + k) % len(INT_TEXTS)]
             if k % 3 == 1:
                 for i, sp in enumerate(spots):
                     sp["roi"] = det_roi(i, k)
-            tracks = [{"id": ti, "name": f"Track_{ti}", "f": {}, "edges": [{"s": 10 + a, "t": 10 + b, "f": {"LINK_COST": ftext_det(3 * a + b + k)} if (a + b) % 2 else {}}
-                                                                             for a, b in comp]}
+            tracks = [{"id": ti if k % 4 != 2 else [2 ** 53 + 1, 7, 2 ** 62 + 1][ti % 3], "name": f"Track_{ti}", "f": {},
+                       "edges": [{"s": idl[a], "t": idl[b], "f": {"LINK_COST": ftext_det(3 * a + b + k)} if (a + b) % 2 else {}}
+                                 for a, b in comp]}
                       for ti, comp in enumerate(comps)]
             tids = [t["id"] for t in tracks]
             fvariants = [None, [], tids[:1], tids]
@@ -605,13 +620,15 @@ def exhaustive(nmax):
                 for ds, dt in itertools.product((False, True), repeat=2):
                     if fv is not None and not dt and fv != []:
                         continue      # the list only matters under discard_filtered_tracks
-                    yield {"doc": mk_doc(spots, tracks, fv), "ds": ds, "dt": dt, "zf": 2, "via": "api"}
+                    yield {"doc": mk_doc(spots, tracks, fv, sf=[list(x) for x in MANDATORY_SF] + [["COUNT", True, "NONE"]]),
+                           "ds": ds, "dt": dt, "zf": 2, "via": "api"}
 
 
 def random_doc(rng, big=False):
     nframes = rng.randint(0, 4)
     nspots = 0 if nframes == 0 else rng.randint(0, 8 if not big else 14)
-    ids = rng.sample(range(0, 60) if rng.random() < 0.8 else [0, 1, 5, 2 ** 20, 2 ** 31 - 1, 2 ** 40, 123456789, 77, 78, 79, 80, 81, 82, 83, 84], nspots)
+    nspots = min(nspots, len(BIG_IDS))
+    ids = rng.sample(range(0, 60) if rng.random() < 0.6 else BIG_IDS, nspots)
     frames = sorted(rng.randrange(nframes) for _ in range(nspots))
     spots = [base_spot(i, ids[i], frames[i], rng) for i in range(nspots)]
     # extra declared features on subsets
@@ -622,15 +639,16 @@ def random_doc(rng, big=False):
         isint = rng.random() < 0.4
         sf.append([f"SF{j}", isint, rng.choice(DIMS)])
         frac = rng.choice([0.0, 0.3, 0.7, 1.0])
+        ipool = UINT_TEXTS if rng.random() < 0.25 else INT_TEXTS
         for s in spots:
             if rng.random() < frac:
-                s["f"][f"SF{j}"] = rng.choice(INT_TEXTS) if isint else ftext(rng)
+                s["f"][f"SF{j}"] = rng.choice(ipool) if isint else ftext(rng)
     # tracks: vertex-disjoint, connected, edges forward in time (splits and merges allowed)
     order = list(range(nspots))
     rng.shuffle(order)
     ntracks = rng.randint(0, 3)
     tracks, used = [], set()
-    tid_pool = rng.sample(range(0, 12), ntracks)
+    tid_pool = rng.sample(list(range(0, 12)) if rng.random() < 0.7 else [0, 3, 2 ** 31, 2 ** 53 + 1, 2 ** 62 + 1, 2 ** 63 - 1, 9007199254740995], ntracks)
     for ti in range(ntracks):
         avail = [i for i in order if i not in used]
         if len(avail) < 2:
@@ -673,10 +691,11 @@ def random_doc(rng, big=False):
     for j in range(rng.randint(0, 2)):
         isint = rng.random() < 0.4
         ef.append([f"EF{j}", isint, rng.choice(DIMS)])
+        ipool = UINT_TEXTS if rng.random() < 0.25 else INT_TEXTS
         for t in tracks:
             for e in t["edges"]:
                 if rng.random() < 0.5:
-                    e["f"][f"EF{j}"] = rng.choice(INT_TEXTS) if isint else ftext(rng)
+                    e["f"][f"EF{j}"] = rng.choice(ipool) if isint else ftext(rng)
     tids = [t["id"] for t in tracks]
     r = rng.random()
     filtered = None if r < 0.25 else [] if r < 0.35 else tids if r < 0.5 else [t for t in tids if rng.random() < 0.5] + ([99] if rng.random() < 0.1 else [])
@@ -843,11 +862,11 @@ def model_request(case):
         "space": doc.get("space"), "time": doc.get("time"),
         "sf": [[f[0], f[1], f[2]] for f in doc["sf"]], "ef": [[f[0], f[1], f[2]] for f in doc["ef"]],
         "tf": [[f[0], f[1], f[2]] for f in doc["tf"]],
-        "spots": [{"id": s.get("id"), "name": s.get("name"), "f": feats(s["f"]),
+        "spots": [{"id": None if s.get("id") is None else str(s["id"]), "name": s.get("name"), "f": feats(s["f"]),
                    "roi": None if s.get("roi") is None else {"n": s["roi"]["n"], "pts": s["roi"]["pts"]}} for s in doc["spots"]],
         "tracks": [{"id": None if t.get("id") is None else classify(t["id"]), "f": feats(t.get("f", {})),
-                    "edges": [{"s": e["s"], "t": e["t"], "f": feats(e.get("f", {}))} for e in t["edges"]]} for t in doc["tracks"]],
-        "filtered": doc.get("filtered"), "ds": case["ds"], "dt": case["dt"]}
+                    "edges": [{"s": str(e["s"]), "t": str(e["t"]), "f": feats(e.get("f", {}))} for e in t["edges"]]} for t in doc["tracks"]],
+        "filtered": None if doc.get("filtered") is None else [str(t) for t in doc["filtered"]], "ds": case["ds"], "dt": case["dt"]}
 
 
 def model_cell(v, kind):
@@ -869,7 +888,7 @@ def model_cell(v, kind):
     return v
 
 
-KIND_DTYPE = {"int64": "int64", "float64": "float64", "str": "str", "roi-regular": "float64", "roi-varlen": "object:float64"}
+KIND_DTYPE = {"int64": "int64", "uint64": "uint64", "float64": "float64", "str": "str", "roi-regular": "float64", "roi-varlen": "object:float64"}
 AXES = ["POSITION_X", "POSITION_Y", "POSITION_Z", "POSITION_T"]
 
 
